@@ -82,11 +82,18 @@ fn main() {
         }
         // mqv twins <kind: cancel|fragment> <seed> <count> <trace-out.ndjson>
         "twins" => {
-            let kind = if args[2] == "cancel" { rnd::TwinKind::Cancel } else { rnd::TwinKind::Fragment };
+            let kind = match args[2].as_str() {
+                "cancel" => rnd::TwinKind::Cancel,
+                "stall" => rnd::TwinKind::Stall,
+                _ => rnd::TwinKind::Fragment,
+            };
             let seed: u64 = args[3].parse().expect("seed");
             let count: usize = args[4].parse().expect("count");
             let mut out = std::io::BufWriter::new(std::fs::File::create(&args[5]).expect("create out"));
-            let cfg0: types::Cfg = serde_json::from_str(r#"{"rx":160,"tx":1152,"client_id":[116,119],"ka":0,"sei":300}"#).unwrap();
+            let mut cfg0: types::Cfg = serde_json::from_str(r#"{"rx":160,"tx":1152,"client_id":[116,119],"ka":0,"sei":300}"#).unwrap();
+            if kind == rnd::TwinKind::Stall {
+                cfg0.ka = 2;
+            }
             let mut bad = 0;
             for i in 0..count {
                 let s = seed.wrapping_mul(7_000_003).wrapping_add(i as u64);
